@@ -123,9 +123,9 @@ impl<'s> Lexer<'s> {
 
     pub fn skip_shebang(&mut self) {
         let mut tail = self.input;
-        if tail.eat_str("#!")
-            && tail.starts_with(|c: char| !c.is_whitespace())
-        {
+        // Anything may follow the `#!`: `#! /usr/bin/env roto` is as valid a
+        // shebang as `#!/usr/bin/env roto`.
+        if tail.eat_str("#!") {
             tail.eat_until('\n');
             self.bump_to(tail);
         }
